@@ -4,4 +4,4 @@ set -e
 cd /verif
 (cd weave && CARGO_NET_OFFLINE=true cargo build --release --offline 2>&1 | grep -E '^error' -A 10 || true)
 ./weave/target/release/kweave --repo /repo --kc contracts/u1.kc --out /tmp/kw/u1.rs --map /tmp/kw/u1.json "$@"
-cd /tmp/kw && verus u1.rs --cfg 'feature="async"' --multiple-errors 20 --num-threads 16 2>&1 | grep -v '^\s*$'
+cd /tmp/kw && verus u1.rs --cfg 'feature="async"' -C debug-assertions=off --multiple-errors 20 --num-threads 16 2>&1 | grep -v '^\s*$'
